@@ -1265,11 +1265,12 @@ def _compare_msg(part, clause, site, m2, want, b0, w, ent2):
     try:
         b2 = bytes(_SER.serialize(m2))
     except Exception as e:  # noqa
-        part.violation(clause, f"{site}:serialize:{type(e).__name__}", w, f"{want['name']}: re-serializing raised {e!r}"[:300])
+        part.violation(clause, f"{site}:serialize:{type(e).__name__}", w, f"{want['name']}: re-serializing raised {e!r} (block lists "
+                                                                          f"{got['blocks']}, were {want['blocks']})"[:400])
         return
     if b2 != b0:
         i = next((j for j in range(min(len(b2), len(b0))) if b2[j] != b0[j]), min(len(b2), len(b0)))
-        part.violation(clause, f"{site}:datagram:{want['name']}", w, f"datagram differs at offset {i}: {b2[i:i + 8].hex()} vs {b0[i:i + 8].hex()} "
+        part.violation(clause, f"{site}:datagram" + ("" if got["blocks"] != want["blocks"] else f":{want['name']}"), w, f"datagram differs at offset {i}: {b2[i:i + 8].hex()} vs {b0[i:i + 8].hex()} "
                                                                     f"(len {len(b2)} vs {len(b0)})")
 
 
